@@ -23,6 +23,39 @@ def prow(r):
     return {"k": "F", "name": r.name, "s": r.start, "e": r.end, "st": r.strand}
 
 
+GIANT = 2 ** 25
+
+
+def giant(sc, k=GIANT):
+    """the same scenario on a k times coarser grid: every base becomes k bases, the texel k times as wide (scaffolds of several Gbp)"""
+    def up(r):
+        return dict(r, s=(r["s"] - 1) * k + 1, e=r["e"] * k) if r["k"] == "F" else dict(r, s=1, e=(r["e"] - r["s"] + 1) * k)
+    out = dict(sc)
+    out["input"] = [{"name": s["name"], "rows": [up(r) for r in s["rows"]]} for s in sc["input"]]
+    out["map"] = [dict(g, pieces=[dict(p, a=(p["a"] - 1) * k + 1, b=p["b"] * k) for p in g["pieces"]]) for g in sc["map"]]
+    out["tn"] = sc["tn"] * k
+    return out
+
+
+def ungiant(rows, k=GIANT):
+    """back to the fine grid; the 200 bp join gap is not stretched and stays as it is.  None if a row is off the grid."""
+    out = []
+    for r in rows:
+        if r["k"] == "F":
+            if (r["s"] - 1) % k or r["e"] % k:
+                return None
+            out.append(dict(r, s=(r["s"] - 1) // k + 1, e=r["e"] // k))
+        else:
+            n = r["e"] - r["s"] + 1
+            if n % k == 0:
+                out.append(dict(r, s=1, e=n // k))
+            elif n == 200 and r["name"] == "scaffold":
+                out.append(dict(r))
+            else:
+                return None
+    return out
+
+
 def build_objects(sc):
     from tola.assembly.assembly import Assembly
     from tola.assembly.fragment import Fragment
@@ -76,7 +109,7 @@ def run_scenario(sc):
          "input": sc["input"], "map": sc["map"], "haps": sc.get("haps", ["" for _ in sc["input"]]), "style": sc.get("style", "plain"), "status": "ok", "out": [], "stats": {"cuts": 0, "breaks": 0, "joins": 0}, "msg": ""}
 
     def go(_):
-        ia, p = build_objects(sc)
+        ia, p = build_objects(giant(sc) if sc.get("giant") else sc)
         ba = BuildAssembly("o", default_gap=Gap(200, "scaffold"), autosome_prefix=sc.get("prefix") or "SUPER_")
         ba.remap_to_input_assembly(p, ia)
         out = ba.assemblies_with_scaffolds_fused()
@@ -102,9 +135,19 @@ def run_scenario(sc):
         t["inkeys"] = [inkey(s) for s in sc["input"]]
         for key, asm in out.items():
             for s in asm.scaffolds:
+                rows = [prow(x) for x in s.rows]
+                if sc.get("giant"):
+                    rows = ungiant(rows)
+                    if rows is None:
+                        t["status"] = "exc:OffGrid"
+                        t["msg"] = "a row of the giant run does not lie on the stretched grid: " + str(s)[:100]
+                        rows = []
                 t["out"].append({"asm": key or "", "asm_lc": (key or "").lower(), "name": s.name, "rank": s.rank or 0, "tag": s.tag or "", "hap": s.haplotype or "",
-                                 "orig": s.original_name or "", "rows": [prow(x) for x in s.rows]})
+                                 "orig": s.original_name or "", "rows": rows})
         t["stats"] = {"cuts": st.cuts, "breaks": st.breaks, "joins": st.joins}
+    if sc.get("giant"):
+        t["style"] = "giant"        # (the pipeline model is not compared: its 1-texel rounding does not stretch)
+        t["cls"] = sc["cls"] + "/giant"
     return t
 
 
